@@ -97,6 +97,11 @@ func (j *JsonQueryVisitorImpl) VisitParenExp(ctx *ParenExpContext) interface{} {
 
 func (j *JsonQueryVisitorImpl) VisitLogicalExp(ctx *LogicalExpContext) interface{} {
 	left := ctx.Query(0).Accept(j).(bool)
+	if j.hasErr() {
+		// a failed evaluation is final: do not visit the right operand,
+		// it could overwrite the error or trip over stale operands
+		return false
+	}
 	op := ctx.LOGICAL_OPERATOR().GetText()
 	if op == "or" {
 		if left {
